@@ -34,6 +34,7 @@ def setCfg (st : DSt) (kv : String) : Option DSt :=
     | "raftwal.flushOnAppend" => do let b ← boolOfString? v; pure { st with cfg := { st.cfg with flushOnAppend := b } }
     | "seg.guardUntruncated" => do let b ← boolOfString? v; pure { st with scfg := { st.scfg with guardUntruncated := b } }
     | "seg.wdChecksFlushed" => do let b ← boolOfString? v; pure { st with scfg := { st.scfg with wdChecksFlushed := b } }
+    | "seg.flushRetries" => do let b ← boolOfString? v; pure { st with scfg := { st.scfg with flushRetries := b } }
     | "seg.replaySeedsTrunc" => do let b ← boolOfString? v; pure { st with scfg := { st.scfg with replaySeedsTrunc := b } }
     -- operator facts the model is not parameterised by: only the modelled value is accepted
     | "seg.canRemoveOps" => if v == "ge,ge" then some st else none
